@@ -22,7 +22,10 @@ Definition enc (e : event) : list N :=
    nlen (stack c); nlen (states c); nlen (parsed c); fst (hsnap c); snd (hsnap c)].
 
 (* input: configured depth limit, top-level items in execution order, truncated? *)
-Record input := { i_md : N; i_tops : list top; i_trunc : bool }.
+Record input := { i_md : N; i_tops : list top; i_trunc : bool; i_alt : list (str * str) }.
+
+(* sanitize_class_name on the declared names of this case, as a finite table computed by the harness *)
+Definition alt_of (i : input) (n : str) : str := match alookup n (i_alt i) with Some a => a | None => n end.
 
 Definition obs := (bool * list (list N))%type.
 
@@ -36,12 +39,22 @@ Definition obs_eqb (m o : obs) : bool :=
 
 (* guard conjuncts: 1 = F08a (true nesting within the limit), 2 = F08b (no fall-through),
    3 = no empty schema name reaches the tracker (F08d, fixed in the loader: must always hold now),
-   4 = tracker state is only dropped for the schema that is re-parsed next (must always hold) *)
+   4 = tracker state is only dropped for the schema that is re-parsed next (must always hold),
+   5 = the parser body honours the registration contract of C08_all_present (F08e when false) *)
 Definition guards (i : input) : list bool :=
   [guard_F08a (i_md i) (i_tops i); guard_F08b (i_md i) (i_tops i); forallb (fun x => names_truthy (top_call x)) (i_tops i);
-   forallb fresh_ok (i_tops i)].
+   forallb fresh_ok (i_tops i);
+   contract (alt_of i) (init (i_md i)) (i_tops i) && forallb (fun x => no_unreg (top_call x)) (i_tops i)].
 
 Definition run (cases : list (input * obs)) : list N := report obs_eqb model_obs guards cases.
 
 (* debugging aid: the model's own snapshots *)
 Definition show (i : input) : list (list N) := snd (model_obs i).
+
+(* ---- second relation: the nesting of _parse_schema frames predicted by the fuel-based parser model
+   (Model/CycleParser.v over w02's Model/Parser.v) = the maximum nesting observed on the real parser, on the
+   enumerated reference graphs.  Code 0 = equal. ---- *)
+From PG Require Model.CycleParser.
+Definition run_nest (cases : list (nat * N * N * nat)) : list N :=
+  map (fun c => match c with (k, m, md, seen) =>
+         if Nat.eqb (PG.Model.CycleParser.needed md (PG.Model.CycleParser.gspec k m)) seen then 0 else 1 end) cases.
